@@ -156,9 +156,12 @@ def gen_builtin_scn(rng, extreme=False) -> ch.Scn:
         names = ["HaltonSampler", "XGBoostSampler", rng.choice(["HaltonSampler", "RandomUniformSampler", "RSequenceSampler", "BestBatchSampler", "XGBoostSampler"]), "XGBoostSampler"]
     lineup = [(nm, rng.randint(2, 4) if nm != "CORSSampler" else rng.randint(2, 3), None, rng.choice([None, 5])) for nm in names]
     lineup[0] = ("HaltonSampler", 4, None, lineup[0][3])     # best-batch needs at least batch_size existing points
+    if extreme == "inf":
+        # non-finite losses in the history when a surrogate is scheduled (GP legitimately refuses them: not used here)
+        lineup = [("HaltonSampler", 5, None, None)] + [(rng.choice(["RandomForestSampler", "XGBoostSampler", "BestBatchSampler", "RandomUniformSampler"]), rng.randint(2, 3), None, None) for _ in range(3)]
     return ch.Scn(ensemble=rng.randint(1, 3), simlen=dims + 3, dims=dims, seed=rng.randrange(10 ** 5), lineup=lineup,
                   bounds=(tuple(0.0 for _ in range(dims)), tuple(1.0 for _ in range(dims))), precision=tuple(0.01 for _ in range(dims)),
-                  loss_fn="extreme" if extreme else rng.choice(["sum", "dist", "ties"]),
+                  loss_fn=("infmix" if extreme == "inf" else "extreme") if extreme else rng.choice(["sum", "dist", "ties"]),
                   ops=[("C", rng.randint(1, 3)) for _ in range(rng.randint(2, 3))])
 
 
@@ -192,10 +195,10 @@ def run(chk: Check):
     # built-in samplers (recorded outputs), incl. the XGBoost float32-overflow case
     nb_runs = 10 if chk.tier == "quick" else 150
     for i in range(nb_runs):
-        scn = gen_builtin_scn(rng, extreme=(i % 3 == 0))
+        scn = gen_builtin_scn(rng, extreme=("inf" if i % 3 == 1 else True) if i % 3 != 2 else False)
         lines, info, errs = run_with_oracle(chk, scn, "builtin")
         chk.case(scn_json(scn), True, {"lineup": [c for c, *_ in scn.lineup], "loss_fn": scn.loss_fn, "ops": scn.ops})
-        chk.count("builtin_lineups"); chk.count("extreme_losses" if scn.loss_fn == "extreme" else "finite_losses")
+        chk.count("builtin_lineups"); chk.count("losses:" + str(scn.loss_fn))
         for e in errs[:3]:
             chk.fail("history (built-in samplers): " + e, {"case": scn_json(scn)})
         if info["rec"].get("_conflicts"):
